@@ -52,6 +52,14 @@ theorem split_only_tail_empty (mk : β → Bool) (l : List β) :
   obtain ⟨init, o, rfl, _, _⟩ := split_ends_marked mk l p hp
   simp
 
+/-- T2 (d): the trailing piece is empty exactly when the last observation of the track is marked -/
+theorem split_tail_empty_iff (mk : β → Bool) (l : List β) (h : l.any mk = true) :
+    (split (tag mk l)).getLast? = some [] ↔ ∃ o, l.getLast? = some o ∧ mk o = true := by
+  rw [split_shape _ (by rw [any_tag]; exact h), List.getLast?_concat]
+  have hl : l ≠ [] := by intro hl; subst hl; simp at h
+  rw [Option.some.injEq, go_cur_nil]
+  simp [hl]
+
 /-- T2 for a track given as (observation, marker) pairs: `split` only looks at the markers, so the
 pieces are the images of the pieces of the self-tagged track, which satisfy (a)–(c). -/
 theorem split_pairs (obs : List (β × Bool)) :
